@@ -47,7 +47,8 @@ type c11Case struct {
 	TagLeaf string   `json:"tagleaf,omitempty"`
 	// multi: several sources; Profile is the first (main) source, Profile2 the second / the base
 	Profile2 string `json:"profile2,omitempty"`
-	Mode     string `json:"mode,omitempty"` // two | base | diff_base
+	Profile3 string `json:"profile3,omitempty"` // optional third source (always a plain source, after the first)
+	Mode     string `json:"mode,omitempty"`     // two: pprof a [c] b | base: -base=b a [c] | diff_base: -diff_base=b a [c]
 }
 
 // simplified asks the model for simplifyFunc(name), cached.
@@ -782,14 +783,22 @@ func sampleLines(p *profile.Profile) []string {
 	return out
 }
 
-func c11RunMulti(bin, dir string, i int, a, b *profile.Profile, mode string) cliOut {
+func c11RunMulti(bin, dir string, i int, a, b, c3 *profile.Profile, mode string) cliOut {
 	fa := filepath.Join(dir, fmt.Sprintf("ma-%d.pb.gz", i))
 	fb := filepath.Join(dir, fmt.Sprintf("mb-%d.pb.gz", i))
+	fc := filepath.Join(dir, fmt.Sprintf("mc-%d.pb.gz", i))
 	out := filepath.Join(dir, fmt.Sprintf("mo-%d.pb.gz", i))
-	for _, x := range []struct {
+	srcs := []struct {
 		f string
 		p *profile.Profile
-	}{{fa, a}, {fb, b}} {
+	}{{fa, a}, {fb, b}}
+	if c3 != nil {
+		srcs = append(srcs, struct {
+			f string
+			p *profile.Profile
+		}{fc, c3})
+	}
+	for _, x := range srcs {
 		f, err := os.Create(x.f)
 		if err != nil {
 			return cliOut{err: "harness", msg: err.Error()}
@@ -801,13 +810,17 @@ func c11RunMulti(bin, dir string, i int, a, b *profile.Profile, mode string) cli
 		f.Close()
 	}
 	args := []string{"-proto", "-symbolize=none", "-output=" + out}
+	main := []string{fa}
+	if c3 != nil {
+		main = append(main, fc) // the third source is the MIDDLE one: a c b
+	}
 	switch mode {
 	case "base":
-		args = append(args, "-base="+fb, fa)
+		args = append(append(args, "-base="+fb), main...)
 	case "diff_base":
-		args = append(args, "-diff_base="+fb, fa)
+		args = append(append(args, "-diff_base="+fb), main...)
 	default:
-		args = append(args, fa, fb)
+		args = append(append(args, main...), fb)
 	}
 	cmd := exec.Command(bin, args...)
 	cmd.Env = append(os.Environ(), "PPROF_BINARY_PATH="+filepath.Join(dir, "nobin"), "PPROF_TMPDIR="+dir, "HOME="+dir)
@@ -826,6 +839,7 @@ func c11RunMulti(bin, dir string, i int, a, b *profile.Profile, mode string) cli
 	}
 	os.Remove(fa)
 	os.Remove(fb)
+	os.Remove(fc)
 	os.Remove(out)
 	return cliOut{prof: q, views: viewList(q)}
 }
@@ -841,11 +855,22 @@ func c11MultiEval(c *Ctx, e *c11Env, cs c11Case, res cliOut) {
 		c.Res.HarnessError = res.msg
 		return
 	}
-	dropF, keepF := a.DropFrames, a.KeepFrames // the rules of the first source, and only those
-	desc := fmt.Sprintf("mode=%s first source drop_frames=%q keep_frames=%q, other source drop_frames=%q keep_frames=%q", cs.Mode, dropF, keepF, b.DropFrames, b.KeepFrames)
+	dropF, keepF := a.DropFrames, a.KeepFrames // the rules of the first source on the command line, and only those
+	desc := fmt.Sprintf("mode=%s first source (%d samples) drop_frames=%q keep_frames=%q, other source (%d samples) drop_frames=%q keep_frames=%q", cs.Mode, len(a.Sample), dropF, keepF, len(b.Sample), b.DropFrames, b.KeepFrames)
+	var ec *profile.Profile
+	ok3 := true
+	if cs.Profile3 != "" {
+		c3, err := ParseCanon(cs.Profile3)
+		if err != nil {
+			c.Res.HarnessError = "ParseCanon (multi, third source)"
+			return
+		}
+		desc += fmt.Sprintf(", middle source (%d samples) drop_frames=%q keep_frames=%q", len(c3.Sample), c3.DropFrames, c3.KeepFrames)
+		ec, ok3 = ruModelOn(c, e, c3, dropF, keepF)
+	}
 	ea, ok1 := ruModelOn(c, e, a, dropF, keepF)
 	eb, ok2 := ruModelOn(c, e, b, dropF, keepF)
-	if !ok1 || !ok2 {
+	if !ok1 || !ok2 || !ok3 {
 		c.Disagree("C11/multi-model", "model of RemoveUninteresting gives no result", "correspondence Prune.removeUninteresting ~ RemoveUninteresting", cs)
 		return
 	}
@@ -868,6 +893,9 @@ func c11MultiEval(c *Ctx, e *c11Env, cs c11Case, res cliOut) {
 		return
 	}
 	want := append(sampleLines(ea), sampleLines(eb)...)
+	if ec != nil {
+		want = append(want, sampleLines(ec)...)
+	}
 	sort.Strings(want)
 	got := sampleLines(res.prof)
 	if strings.Join(got, "\n") != strings.Join(want, "\n") {
@@ -1028,7 +1056,14 @@ func runC11Case(c *Ctx, e *c11Env, cs c11Case) {
 			return
 		}
 		defer os.RemoveAll(dir)
-		c11MultiEval(c, e, cs, c11RunMulti(c.Pprof, dir, 0, a, b, cs.Mode))
+		var c3 *profile.Profile
+		if cs.Profile3 != "" {
+			if c3, err = ParseCanon(cs.Profile3); err != nil {
+				c.Res.HarnessError = "ParseCanon (multi)"
+				return
+			}
+		}
+		c11MultiEval(c, e, cs, c11RunMulti(c.Pprof, dir, 0, a, b, c3, cs.Mode))
 	case "agg":
 		p, err := ParseCanon(cs.Profile)
 		if err != nil {
@@ -1093,7 +1128,7 @@ func c11NoExpr(c *Ctx, cs c11Case) {
 }
 
 func runC11(c *Ctx) {
-	c.Res.Rule = "profiles with inlined multi-line locations (match at the root-most line, in the middle, at the leaf-most line), locations shared by several samples, unsymbolized locations, empty stacks, functions with empty names and names that simplifyFunc rewrites (leading '.', argument lists, reserved '(anonymous namespace)' / 'operator()'); drop/keep expressions from a list of alternations/classes/wildcards, anchored as RemoveUninteresting does and unanchored for Prune; streams: Prune, RemoveUninteresting, PruneFrom (inputs violating the hypothesis of the _partial theorems on known-finding streams), simplifyFunc through anchored quoted names, no-expression identity, `pprof -proto` on profiles carrying drop_frames/keep_frames and with -prune_from, also combined with focus/ignore/hide/show/tagfocus expressions that match on the leaf side of the prune point (the filters must decide on the unpruned stacks), and `pprof -traces` / `-proto -noinlines` with every granularity (default, functions, files, lines, addresses, filefunctions), -noinlines, -relative_percentages on/off and -tagroot/-tagleaf (expected stacks = aggregation applied AFTER drop/keep frames, label frames and prune_from on the original names; sparse ids and id tables that are not sorted), and two-source runs (pprof a b, -base, -diff_base) whose sources carry different, also empty, drop_frames/keep_frames (the rules of the first source only apply, to every sample). non-trivial = the expressions match at least one but not all locations in use; distinct by expressions + canonical profile"
+	c.Res.Rule = "profiles with inlined multi-line locations (match at the root-most line, in the middle, at the leaf-most line), locations shared by several samples, unsymbolized locations, empty stacks, functions with empty names and names that simplifyFunc rewrites (leading '.', argument lists, reserved '(anonymous namespace)' / 'operator()'); drop/keep expressions from a list of alternations/classes/wildcards, anchored as RemoveUninteresting does and unanchored for Prune; streams: Prune, RemoveUninteresting, PruneFrom (inputs violating the hypothesis of the _partial theorems on known-finding streams), simplifyFunc through anchored quoted names, no-expression identity, `pprof -proto` on profiles carrying drop_frames/keep_frames and with -prune_from, also combined with focus/ignore/hide/show/tagfocus expressions that match on the leaf side of the prune point (the filters must decide on the unpruned stacks), and `pprof -traces` / `-proto -noinlines` with every granularity (default, functions, files, lines, addresses, filefunctions), -noinlines, -relative_percentages on/off and -tagroot/-tagleaf (expected stacks = aggregation applied AFTER drop/keep frames, label frames and prune_from on the original names; sparse ids and id tables that are not sorted), and two-source runs (pprof a b, -base, -diff_base) with two or three sources that carry different, also empty, drop_frames/keep_frames, half of them with a source that has NO samples (first, middle or last) (the rules of the first source on the command line only apply, to every sample). non-trivial = the expressions match at least one but not all locations in use; distinct by expressions + canonical profile"
 	e := &c11Env{c: c, simp: map[string]string{}}
 	if c.Replay != "" {
 		var cs c11Case
@@ -1391,6 +1426,7 @@ func runC11(c *Ctx) {
 	mcs := make([]c11Case, nM)
 	mas := make([]*profile.Profile, nM)
 	mbs := make([]*profile.Profile, nM)
+	m3s := make([]*profile.Profile, nM)
 	prep := func(p *profile.Profile, tag string) *profile.Profile {
 		for i, sm := range p.Sample {
 			for j := range sm.Value {
@@ -1430,13 +1466,62 @@ func runC11(c *Ctx) {
 		if len(b.SampleType) != len(a.SampleType) {
 			b.SampleType = a.SampleType
 		}
+		// a third (middle) source in 40% of the cases; sources WITHOUT samples — first, middle or last,
+		// with and without rules — in half of the cases (never all of them)
+		var c3 *profile.Profile
+		if r.Chance(40) {
+			c3 = genC11Profile(r, true)
+			for k := 0; k < 50 && len(c3.SampleType) != len(a.SampleType); k++ {
+				c3 = genC11Profile(r, true)
+			}
+			if len(c3.SampleType) != len(a.SampleType) {
+				c3 = nil
+			} else if r.Chance(60) {
+				c3.DropFrames, c3.KeepFrames = pick(c11Drops), pick(c11Keeps)
+			}
+		}
+		if i%2 == 1 {
+			switch r.Intn(4) {
+			case 0, 1:
+				a.Sample = nil
+				c.Res.Hit("multi:first-source-without-samples")
+			case 2:
+				if c3 != nil {
+					c3.Sample = nil
+					c.Res.Hit("multi:middle-source-without-samples")
+				} else {
+					a.Sample = nil
+					c.Res.Hit("multi:first-source-without-samples")
+				}
+			default:
+				b.Sample = nil
+				c.Res.Hit("multi:last-source-without-samples")
+			}
+			if len(a.Sample) == 0 && len(b.Sample) == 0 && (c3 == nil || len(c3.Sample) == 0) {
+				b = genC11Profile(r, true)
+				b.SampleType = a.SampleType
+				for _, sm := range b.Sample {
+					sm.Value = sm.Value[:0]
+					for range b.SampleType {
+						sm.Value = append(sm.Value, 1)
+					}
+				}
+			}
+		}
 		a, b = prep(a, "a"), prep(b, "b")
+		if c3 != nil {
+			c3 = prep(c3, "c")
+		}
 		if a == nil || b == nil {
 			c.Res.HarnessError = "generated profile does not round-trip"
 			return
 		}
 		mcs[i] = c11Case{Kind: "multi", Stream: "main", Profile: Canon(a), Profile2: Canon(b), Mode: []string{"two", "base", "diff_base"}[i%3]}
-		mas[i], mbs[i] = a, b
+		if c3 != nil {
+			mcs[i].Profile3 = Canon(c3)
+			c.Res.Hit("multi:three-sources")
+		}
+		mas[i], mbs[i], m3s[i] = a, b, c3
 		c.Res.Hit("multi:" + mcs[i].Mode)
 		c.Res.Hit(fmt.Sprintf("multi:first-has-drop=%v,keep=%v;other-has-drop=%v,keep=%v", a.DropFrames != "", a.KeepFrames != "", b.DropFrames != "", b.KeepFrames != ""))
 	}
@@ -1447,7 +1532,7 @@ func runC11(c *Ctx) {
 		go func(i int) {
 			defer wg.Done()
 			defer func() { <-sem }()
-			mouts[i] = c11RunMulti(c.Pprof, dir, i, mas[i], mbs[i], mcs[i].Mode)
+			mouts[i] = c11RunMulti(c.Pprof, dir, i, mas[i], mbs[i], m3s[i], mcs[i].Mode)
 		}(i)
 	}
 	wg.Wait()
